@@ -231,4 +231,8 @@ def dataclass_specs(fields=None):
         # under its name nor kept as an extra key
         out.append(("dc", base, (("a", ("t", "int"), None), ("v", ("r", "int", (("ge", "0"),), "cls"), "Field(no_input=True, default=0)")),
                     "Options(addition=True)"))
+        # the same declaration spread over three levels of inheritance (types from the grandparent, defaults from the leaf)
+        out.append(("dc", base + "3", (("a", ("r", "int", (("gt", "0"),), "cls"), "3"),), None))
+        out.append(("dc", base + "3", (("a", ("g", "List", (("t", "int"),)), "[1, 2]"),), None))
+        out.append(("dc", base + "3", (("a", ("t", "int"), None), ("b", ("t", "str"), "'dflt'")), None))
     return out
